@@ -13,11 +13,19 @@ pub struct MemcacheBinaryConnection {
     stream: TcpStream,
     codec: MemcacheBinaryCodec,
     buffer: BytesMut,
+    #[cfg(memcrs_verif)]
+    verif_ports: u64,
 }
 
 impl MemcacheBinaryConnection {
     pub fn new(socket: TcpStream, item_size_limit: u32) -> Self {
+        // captured while the socket is certainly connected (a reset peer has no peer address)
+        #[cfg(memcrs_verif)]
+        let verif_ports = (socket.local_addr().map(|a| a.port() as u64).unwrap_or(0) << 16)
+            | socket.peer_addr().map(|a| a.port() as u64).unwrap_or(0);
         MemcacheBinaryConnection {
+            #[cfg(memcrs_verif)]
+            verif_ports,
             stream: socket,
             codec: MemcacheBinaryCodec::new(item_size_limit),
             buffer: BytesMut::with_capacity(4096),
@@ -152,9 +160,7 @@ impl MemcacheBinaryConnection {
     /// (local port << 16) | peer port: identifies the connection for the harness
     #[cfg(memcrs_verif)]
     pub(crate) fn verif_peer_port(&self) -> u64 {
-        let peer = self.stream.peer_addr().map(|a| a.port() as u64).unwrap_or(0);
-        let local = self.stream.local_addr().map(|a| a.port() as u64).unwrap_or(0);
-        (local << 16) | peer
+        self.verif_ports
     }
 
     pub async fn write(&mut self, msg: &BinaryResponse) -> io::Result<()> {
